@@ -106,6 +106,7 @@ type setupOpt struct {
 	vectors    []string // ids added to index "i" before the threads start
 	subscriber bool     // a subscriber with a 1-slot buffer that never reads
 	links      bool
+	prelinks   [][2]string // edges of relation "r" created before the threads start
 }
 
 func newWorld(o setupOpt, bubble bool) func() (any, error) {
@@ -128,6 +129,11 @@ func newWorld(o setupOpt, bubble bool) func() (any, error) {
 		}
 		for n, id := range o.vectors {
 			if err := e.VAdd("i", id, []float32{float32(n + 1), 1}, map[string]any{"base": id}); err != nil {
+				return nil, err
+			}
+		}
+		for _, l := range o.prelinks {
+			if err := e.VLink("i", l[0], l[1], "r", "", 1, nil); err != nil {
 				return nil, err
 			}
 		}
@@ -576,6 +582,37 @@ func oracleOneCreator(w *world) (string, string) {
 	return "", ""
 }
 
+// oracleNoEdgeToDeleted: the client deleted `dead` (which had an edge from `from` and one to
+// `to`) and closed the engine; after Open no current view returns the deleted node.
+func oracleNoEdgeToDeleted(dead, from, to string) func(w *world) (string, string) {
+	return func(w *world) (string, string) {
+		for _, c := range w.calls {
+			if c.ret != "ok" {
+				return "", "" // the delete / snapshot / close itself was refused: nothing to check
+			}
+		}
+		w.e = nil
+		opts := engine.DefaultOptions(w.dir)
+		opts.AutoSaveInterval = 0
+		e2, err := engine.Open(opts)
+		if err != nil {
+			return "open-failed-after-delete-snapshot-close", err.Error()
+		}
+		w.e = e2
+		if _, err := e2.VGet("i", dead); err == nil {
+			return "deleted-vector-back", fmt.Sprintf("VGet(%s) succeeds after restart; calls: %s", dead, describe(w.calls))
+		}
+		out, _ := e2.VGetLinks("i", from, "r")
+		in, _ := e2.VGetIncoming("i", to, "r")
+		dout, _ := e2.VGetLinks("i", dead, "r")
+		din, _ := e2.VGetIncoming("i", dead, "r")
+		if len(out) > 0 || len(in) > 0 || len(dout) > 0 || len(din) > 0 {
+			return "edge-to-deleted-node-after-restart", fmt.Sprintf("after VDelete(%s), snapshot/compaction, Close and Open: VGetLinks(%s)=%v VGetIncoming(%s)=%v VGetLinks(%s)=%v VGetIncoming(%s)=%v; calls: %s", dead, from, out, to, in, dead, dout, dead, din, describe(w.calls))
+		}
+		return "", ""
+	}
+}
+
 func oracleAfterClose(w *world) (string, string) {
 	for _, c := range w.calls {
 		if strings.HasPrefix(c.op, "after-close:") && c.op != "after-close:close" && c.ret == "ok" {
@@ -689,6 +726,20 @@ func all() []scen {
 			}
 			return "", ""
 		}},
+		// one client: delete b (linked a->b, b->c), save a snapshot, close. The cascade of the delete
+		// runs in the background: it may not have started when the snapshot captures the graph, and
+		// Close cancels it. "The same holds after a restart, even if the process stopped before
+		// the cascade finished" (C12), whatever the snapshot captured.
+		{"delete-snapshot-close", setupOpt{vectors: []string{"a", "b", "c"}, prelinks: [][2]string{{"a", "b"}, {"b", "c"}}}, []explore.Thread{guard("client", func(w *world) {
+			w.do("client", "vdel:b", "", func() string { return errStr(w.e.VDelete("i", "b")) })
+			w.do("client", "snapshot", "", func() string { return errStr(w.e.SaveSnapshot()) })
+			w.do("client", "close", "", func() string { return errStr(w.e.Close()) })
+		})}, oracleNoEdgeToDeleted("b", "a", "c")},
+		{"delete-rewrite-close", setupOpt{vectors: []string{"a", "b", "c"}, prelinks: [][2]string{{"a", "b"}, {"b", "c"}}}, []explore.Thread{guard("client", func(w *world) {
+			w.do("client", "vdel:b", "", func() string { return errStr(w.e.VDelete("i", "b")) })
+			w.do("client", "rewrite", "", func() string { return errStr(w.e.RewriteAOF()) })
+			w.do("client", "close", "", func() string { return errStr(w.e.Close()) })
+		})}, oracleNoEdgeToDeleted("b", "a", "c")},
 		// one client: delete b, add b again, link a->b and b->c. The cascade of the delete runs
 		// in the background; the links made to the new b after the delete returned are not its to
 		// remove ("unless it is explicitly linked again", "a re-added id behaves as new")
